@@ -48,6 +48,9 @@ pub fn run(rep: &mut Rep) {
         let depth = if m.is_some() || via_auth { depth - 1 } else { depth };
         let body = |rep: &mut Rep, ch: &mut Chooser| {
             let mut w = World::boot(WorldCfg { seed, receive_max: Some(r), max_packet: m, h3: true, via_auth: Some(via_auth), ..Default::default() });
+            // with Receive Maximum 2 every third publish carries RETAIN, a content type and a user property: options do not
+            // change what counts against the window
+            w.rich_pubs = r == 2 && m.is_none();
             let acts = run_path(&mut w, a, ch);
             if m.is_some() {
                 rep.add("oversize_publishes_in_quota_histories", acts.iter().filter(|x| matches!(x, Act::Start(Kind::PubBig))).count() as i64);
